@@ -53,7 +53,7 @@ def dispatch(c):
 
 def families(tier, seed):
     fam = [x for x in gen.c01_structured() if x[0].startswith(("F1", "F2", "F3", "F4", "F6", "F7", "F8", "F9"))] + gen.c04_extra() + \
-        gen.c01_random(seed + 100, 16 if tier == "quick" else 200)
+        gen.c01_random(seed + 100, 16 if tier == "quick" else 1000)
     out = []
     for tag, feats, model in fam:
         out.append(dict(tag=tag, features=feats, kind="field", model=model, seed=seed + 3))
